@@ -128,6 +128,16 @@ func monC12(w *World, pre, post *Dump, ev XEvent, logsBefore, logsAfter map[stri
 		}
 	}
 	if logsBefore != nil {
+		// every log directory belongs to a job the API reports: logs of purged jobs do not stay behind
+		reported := map[string]bool{}
+		for i := range post.Jobs {
+			reported[jobUUID(post.Jobs[i].Idx).String()] = true
+		}
+		for id := range logsAfter {
+			if !reported[id] {
+				add("orphaned-log-directory", fmt.Sprintf("after the save the log directory of job %s still exists but the API does not report that job", shortID(id)))
+			}
+		}
 		for idx, j := range removed {
 			id := jobUUID(idx).String()
 			if _, ok := logsAfter[id]; ok {
@@ -176,6 +186,7 @@ func initialPopulation() *store.PersistedData {
 		mk(903, "q", old, true, false, &old, &oldEnd),
 		fin(908, "q", 30),
 		fin(909, "q", 5),
+		fin(910, "gone", 15), // its pipeline is not defined any more when the runner starts
 	}}
 }
 
